@@ -13,6 +13,7 @@
 #endif
 
 void version();
+void open_std_fds();
 
 #ifdef _WIN32
 // add correct declaration for basename
